@@ -173,6 +173,15 @@ impl Prop for C11 {
                         if !emit(case) {
                             return;
                         }
+                        // the shortest strings (empty, single bit, ...) through every construction route of source and reference
+                        if len <= 3 {
+                            for r in 0..48u8 {
+                                let case = Case { bits: BitsSpec::Bools(bools.clone()), chain: vec![s, t], via_copy: vec![r % 2 == 0; 3], route_src: r % 8, route_ref: r / 8, split: vec![r % 4], redundant_set_len: r % 3 == 0 };
+                                if !emit(case) {
+                                    return;
+                                }
+                            }
+                        }
                     }
                 }
             }
@@ -180,7 +189,7 @@ impl Prop for C11 {
     }
 
     fn exhaustive_note(_tier: Tier) -> Option<String> {
-        Some("all bit strings of length <= 8 x all 9 (source type, target type) pairs".into())
+        Some("all bit strings of length <= 8 x all 9 (source type, target type) pairs; strings of length <= 3 x all pairs x 8 source routes x 6 reference routes".into())
     }
 
     fn run(case: &Case) -> CaseResult {
